@@ -26,3 +26,28 @@ Example C19_diamond :
   schema_check (FSchema [t; FType [0] [0]; pair; pair]
                         [FK 1 0 0 0; FK 2 0 1 0; FK 2 1 0 0; FK 3 0 1 0; FK 3 1 1 0]) = Accepted.
 Proof. exact diamond_accepted. Qed.
+
+(** Exactness of the foreign-key part of configuration acceptance.  One declared key is accepted
+    exactly when its attribute exists in its own type and belongs to that type's primary key, the
+    target type exists, and the target attribute exists there and is that type's single-attribute
+    primary key ... *)
+Theorem C19_fk_rules_exact : forall s d, fk_check s d = None <-> fk_valid s d.
+Proof. exact fk_check_exact. Qed.
+Print Assumptions C19_fk_rules_exact.
+(** ... and a schema's foreign keys are accepted exactly when every declared key is valid and
+    the graph they form has no cycle: nothing valid is refused, nothing invalid or cyclic starts. *)
+Theorem C19_fk_acceptance_exact : forall s,
+  schema_check s = Accepted <-> (forall d, In d (fs_fks s) -> fk_valid s d) /\ ~ has_cycle (fs_fks s).
+Proof. exact schema_check_exact. Qed.
+Print Assumptions C19_fk_acceptance_exact.
+(** non-vacuity: a valid two-type schema, and each documented mistake refused for its own reason *)
+Example C19_fk_rules_examples :
+  let u := FType [0; 1] [0] in let m := FType [0; 1] [0; 1] in
+  fk_check (FSchema [u; m] []) (FK 1 0 0 0) = None /\
+  fk_check (FSchema [u; m] []) (FK 1 5 0 0) = Some EAttrUnknown /\
+  fk_check (FSchema [u; FType [0; 1] [0]] []) (FK 1 1 0 0) = Some EAttrNotPkey /\
+  fk_check (FSchema [u; m] []) (FK 1 0 7 0) = Some ETypeUnknown /\
+  fk_check (FSchema [u; m] []) (FK 1 0 0 9) = Some EToAttrUnknown /\
+  fk_check (FSchema [u; m] []) (FK 1 0 0 1) = Some EToNotPkey /\
+  fk_check (FSchema [u; m] []) (FK 0 0 1 0) = Some EToTuple.
+Proof. vm_compute. repeat split; reflexivity. Qed.
